@@ -79,7 +79,7 @@ PROPS["C09"] = dict(
 
 PROPS["C11"] = dict(
     explanation=RW_EXPL + "Three records around the 2019/2020 year edge in a fixed-length or variable-length bucket; the same query is run unrestricted and with a [start,end] range whose slot is case-split and whose second (and nanosecond) inside the slot is symbolic, including inverted and empty ranges; the oracle is the filter of the unrestricted result.",
-    runs=[dict(pkg="executor", files=["c08_fixed.go", "c09_variable.go", "c11_range.go"], entries=["VerifC11Range"], must_reach=["entered", "written", "queried"], opts=dict(timeout=60))],
+    runs=[dict(pkg="executor", files=["c08_fixed.go", "c09_variable.go", "c11_range.go"], entries=["VerifC11Range"], must_reach=["entered", "written", "queried"], opts=dict(timeout=60, solver="cvc5"))],
     bounds=["quick: 1D buckets, thorough: 1H buckets; fixed (int32 column) and variable (int32 + Nanoseconds)", "3 records, placements: quick 2 per record type, thorough all 4^3 over 4 consecutive slots across the year edge", "range start and end slot each case-split over 7 slots (one before the first record slot .. one after the last), second in the slot and nanosecond symbolic"],
     outside=["more than 3 records; ranges further away than one slot from the data", "tick codec precision (C10)", "snappy-compressed storage"],
     stubs=FS_STUBS + TICK_STUBS, assumptions=COMMON_ASSUME,
@@ -87,7 +87,7 @@ PROPS["C11"] = dict(
 
 PROPS["C12"] = dict(
     explanation=RW_EXPL + "As C11 plus a row limit N and a direction (FIRST/LAST), with and without a range; the oracle is first/last N of the filtered unrestricted result. A second harness makes N symbolic up to MaxInt32-1 on a forward scan to decide the int32 product RecordLen*N.",
-    runs=[dict(pkg="executor", files=["c08_fixed.go", "c09_variable.go", "c11_range.go"], entries=["VerifC12Limit", "VerifC12LimitOverflow"], must_reach=["entered", "queried"], opts=dict(timeout=60))],
+    runs=[dict(pkg="executor", files=["c08_fixed.go", "c09_variable.go", "c11_range.go"], entries=["VerifC12Limit", "VerifC12LimitOverflow"], must_reach=["entered", "queried"], opts=dict(timeout=60, solver="cvc5"))],
     bounds=["1D buckets (thorough: 1H), fixed and variable, 3 records, 2 placements per record type", "N in {1,2,4} (thorough 1..4), FIRST and LAST, without range and with a range (quick: start slot in {0,1}, end slot in {3,4}; thorough 7x7), seconds symbolic", "overflow unit: forward scan, N symbolic in 2..2147483646, 16-byte records"],
     outside=["known finding regions: variable-length + limit + range (limit is applied to intervals before the range trim), N*RecordLen >= 2^31", "backward scans with symbolic N (the reader allocates N records up front)"],
     stubs=FS_STUBS + TICK_STUBS, assumptions=COMMON_ASSUME,
@@ -141,6 +141,6 @@ PROPS["C29"] = dict(explanation="Bounded symbolic execution of the real ColumnSe
 
 PROPS["C31"] = dict(explanation="Bounded symbolic execution of the real CandleDurationFromString, CandleDuration.Truncate/Ceil/IsWithin (with the standard library's Time.Date/ISOWeek/Add executed from their own SSA), QueryableTimeframe, QueryableNrecords, TimeframeFromString and TimeframeFromDuration. Windows: the calendar day of the timestamp is case-split over calendar edges (1 Jan, leap day, 1 Mar, 30 Jun, ISO-week edges 27/28 Dec, 31 Dec; thorough: 12 days in 2020 and 2021), its time of day is symbolic to the nanosecond, in UTC and in a fixed UTC-5 zone; for every duration string the window start is not after the timestamp, the window end is after it, and the timestamp is reported inside its own window. Strings: parse/print/parse stability and divisibility by the queryable timeframe for every listed duration string.",
     runs=[dict(pkg="utils", files=["c31_timeframe.go"], entries=["VerifC31Windows", "VerifC31Strings"], must_reach=["entered", "computed"], opts=dict(timeout=60))],
-    bounds=["duration strings: quick 1Sec,1Min,5Min,1H,1D,1W,1M (windows) and all 25 (strings); thorough 25 strings incl. 90Sec, 90Min, 5D, 2M, 2Y", "5 calendar days of 2020 (thorough 12 days of 2020 and 2021), every nanosecond of the day", "zones UTC and fixed UTC-5"],
+    bounds=["duration strings: quick 1Sec,1Min,5Min,1H,1D,1W,1M,4H,2W,1Y (windows) and all 25 (strings); thorough 25 strings incl. 90Sec, 90Min, 5D, 2M, 2Y", "7 calendar days of 2020 and 2021 (thorough 12 days of 2020 and 2021), every nanosecond of the day", "zones UTC and fixed UTC-5"],
     outside=["days other than the listed calendar edges", "zones with daylight-saving transitions", "known finding regions: week windows outside UTC or longer than one week; durations that are not a whole number of their largest unit (90Sec, 90Min) print truncated"],
     stubs=["time.Time bit packing: semantic model (see C10)", "Time.Truncate: semantic model (instant minus its remainder modulo d, counted from year 1)", "regexp on concrete strings: native call-out"], assumptions=COMMON_ASSUME)
